@@ -33,6 +33,7 @@ class Gen:
                       emptydoc=False, svc_comment=False, multi_indent=False, empty_after_import=False,
                       strws=False, glue=True, cmt_tab=False)
         self.svcnames = []
+        self.in_field = 0       # inside the members of a struct: free gaps are "fld"
         if opts:
             self.o.update(opts)
         self.a = []
@@ -43,7 +44,7 @@ class Gen:
     def t(self, text, gap=None):
         """emit a token; gap = policy of the gap *before* it (default any-s)"""
         if self.a:
-            self.a.append(("G", gap or "any-s"))
+            self.a.append(("G", gap or ("fld" if self.in_field else "any-s")))
         self.a.append(("T", text))
 
     def ident(self, upper=False, allow_kw_like=True):
@@ -250,6 +251,14 @@ class Gen:
     def struct(self, depth, gap=None):
         r = self.r
         self.t("{", gap)
+        self.in_field += 1
+        try:
+            self._members(depth)
+        finally:
+            self.in_field -= 1
+
+    def _members(self, depth):
+        r = self.r
         n = r.choice([0, 1, 2, 3, 4, 5]) if depth == 0 else r.choice([0, 1, 2])
         must_nl = False
         for _ in range(n):
@@ -276,9 +285,33 @@ class Gen:
                     self.t(",", "same" if k == 0 else None)
                     self.t(self.ident(upper=True))
                     k += 1
-                self.dtype(depth, gap="same" if k == 0 else None)
-                if r.random() < 0.7:
-                    self.t(self.rawstring())
+                tg = "same" if k == 0 else None
+                if depth <= 1 and r.random() < 0.12:
+                    # a member whose type contains an inline struct: T {..}, []{..}, map[K]{..}, [N]{..}
+                    y = r.random()
+                    if y < 0.4:
+                        self.struct(depth + 1, tg)
+                    elif y < 0.6:
+                        self.t("[", tg)
+                        self.t("]", "fld")
+                        self.struct(depth + 1, "fld")
+                    elif y < 0.8:
+                        self.t("map", tg)
+                        self.t("[", "fld")
+                        self.t(r.choice(["string", "int64"]), "fld")
+                        self.t("]", "fld")
+                        self.struct(depth + 1, "fld")
+                    else:
+                        self.t("[", tg)
+                        self.t(r.choice(["2", "..."]), "fld")
+                        self.t("]", "fld")
+                        self.struct(depth + 1, "fld")
+                    if r.random() < 0.85:
+                        self.t(self.rawstring(), "fld")
+                else:
+                    self.dtype(depth, gap=tg)
+                    if r.random() < 0.7:
+                        self.t(self.rawstring(), "fld")
         self.t("}", "nl" if must_nl else "any-n")
 
     def duration(self):
@@ -567,7 +600,19 @@ class Deco:
             elif v == "path-end" and self.f10 and r.random() < 0.3:
                 # (repaired finding F10) a comment right after the route path, then a line break
                 out.append((self.ws() or " ") + (self.line_comment() if r.random() < 0.6 else self.block()) + "\n" + indent)
-            elif v in ("any-s", "path-end", "route"):
+            elif v == "fld" and self.inline >= 2 and r.random() < 0.45:
+                x = r.random()
+                if x < 0.3:        # end-of-line comment behind the previous token, next token on the next line
+                    out.append((self.ws() or " ") + (self.line_comment() if r.random() < 0.6 else self.block()) + "\n" + indent)
+                elif x < 0.6:      # comment on lines of its own
+                    out.append("\n" + indent + (self.line_comment() if r.random() < 0.5 else self.block(r.random() < 0.3)) + "\n" + indent)
+                elif x < 0.75:     # comment on the line of the next token
+                    out.append("\n" + indent + self.block() + " ")
+                elif x < 0.85:     # a bare line break
+                    out.append("\n" + indent)
+                else:
+                    out.append(self.same())
+            elif v in ("any-s", "path-end", "route", "fld"):
                 if r.random() < self.odd:
                     out.append(self.newline(indent, comments=self.inline >= 2))
                 else:
